@@ -151,6 +151,32 @@ func show(v any) string {
 	}
 }
 
+// hasEdgeLiteral: a positive integer from 9223372036854775800 to MaxInt64. ojg reads its digits as int64 or as
+// json.Number depending on whether they arrive in one buffer (known finding C18-int64-limit-depends-on-chunking),
+// so texts with such a literal are only parsed from a string.
+func hasEdgeLiteral(v any) bool {
+	switch tv := v.(type) {
+	case int64:
+		return tv >= 9223372036854775800
+	case json.Number:
+		s := string(tv)
+		return len(s) == 19 && s >= "9223372036854775800" && s <= "9223372036854775807"
+	case []any:
+		for _, e := range tv {
+			if hasEdgeLiteral(e) {
+				return true
+			}
+		}
+	case map[string]any:
+		for _, e := range tv {
+			if hasEdgeLiteral(e) {
+				return true
+			}
+		}
+	}
+	return false
+}
+
 // deepCopy copies bag data (maps and slices are fresh).
 func deepCopy(v any) any {
 	switch tv := v.(type) {
